@@ -33,7 +33,7 @@ def flag (j : Json) (k : String) : Bool :=
 * `lex`     `{a}` → the split name and the class flags
 * `match`   `{v,expr}` → `{"r": "match"|"nomatch"|"M"|"I", "tokens":[..]}`
 * `legal`   `{expr}` → `{"r": "relational"|"plain"|"bad"}` (`Eups.isLegalRelativeVersion`)
-* `list`    `{version, tags:[..], stacks:[[{ver,tags:[..]}..]..]}` → `{"products": [[stack, version]..]}` | `{"err": ..}` (`Eups.findProducts`)
+* `list`    `{version, tags:[..], stacks:[[{ver,tags:[..]}..]..]}` → `{"products": [[stack, version]..] | {"err"}, "find": .., "entry": ..}` (`Eups.findProducts`; with `preferred:[..]` also `findProduct(name, version)` for a relational argument and `findProductFromVRO(name, version, vro=[version, versionExpr])`)
 * `latest`  `{names:[..]}` → `{"idx": n | null}` or `{"err": ..}`
 * `stacks` / `stacksboth` (`{"cache":..,"db":..}`)  `{stacks:[[..]..],expr,minver?,db?}` → `{"latest", "latest_min", "preferred": [stack, version] | null | {"err"},
              "matches": [[stack, version]..] | {"err"}}`; `db`: the database branch (each stack in string order) -/
@@ -78,10 +78,22 @@ def handle : Handler := fun j => do
     let stacks ← (← jarr j "stacks").mapM fun st => do
       (← st.getArr?).toList.mapM fun d => do
         pure ({ ver := ← jstr d "ver", tags := ← jstrs d "tags" } : Decl)
-    match listProducts verArg tags stacks with
-    | .error er => pure (Json.mkObj [("err", er.name)])
-    | .ok .badSyntax => pure (Json.mkObj [("err", "BadExpr")])
-    | .ok (.products l) => pure (Json.mkObj [("products", Json.arr (l.map fun (i, v) => Json.arr #[Json.num i, ofStr v]).toArray)])
+    let preferred := match jstrs j "preferred" with | .ok l => l | .error _ => []
+    let ref (i : Nat) (v : Str) : Json := Json.arr #[Json.num i, ofStr v]
+    let products : Json := match listProducts verArg tags stacks with
+      | .error er => Json.mkObj [("err", er.name)]
+      | .ok .badSyntax => Json.mkObj [("err", "BadExpr")]
+      | .ok (.products l) => Json.arr (l.map fun (i, v) => ref i v).toArray
+    let find : Json := match findProductExpr preferred verArg stacks with
+      | .error er => Json.mkObj [("err", er.name)]
+      | .ok none => Json.null
+      | .ok (some (i, v)) => ref i v
+    let entry : Json := match requestEntry verArg stacks with
+      | .error er => Json.mkObj [("err", er.name)]
+      | .ok .badSyntax => Json.mkObj [("err", "BadExpr")]
+      | .ok .nothing => Json.arr #[Json.null, Json.null]
+      | .ok (.found byExpr i v) => Json.arr #[ref i v, Json.str (if byExpr then "versionExpr" else "explicit")]
+    pure (Json.mkObj [("products", products), ("find", find), ("entry", entry)])
   | "latest" =>
     let names ← jstrs j "names"
     match latest names with
